@@ -106,6 +106,14 @@ CLAIMED = {
    note=TB + "Git's matcher is a spec validated against git 2.39.5 only; pattern (non --filename) arguments are judged by scenario runs, the Lean theorems cover the --filename fragment; a slash-less pattern matches at any depth (Git's rule, not asserted against). Known findings D9a/D9b/D9c/D30.",
    technique="Lean 4 proof (lexer/escape round trip by induction over the name) + decide over the regenerated tables + differential correspondence vs the real escaping and vs git check-attr",
    ref="§5 C19"),
+ "C03": dict(
+   text="Lean theorems: the set-level argument (if every excluded commit is reachable from the remote's current refs, rev-list lists what no excluded commit references, listed objects are on the server after exit 0 and the server only gains, "
+        "then the server invariant extends to the pushed tip) with every premise explicit; the exclusion computed by the code satisfies the first premise for a fresh cache (partial) and is refuted by two decided counterexamples (D23, D24 known findings); "
+        "update excludes are remote shas; only empty or already handled pointers are skipped. Scenario engine: random histories built with real git + the real clean filter, pushed in random order/partition through the real hook to a bare repo + fake "
+        "LFS server (refusing PUTs, hook bypasses, server-side ref moves); after every push that exits 0 the remote is walked with plumbing and the server store checked; the uploaded set is compared with the model's exclusion + git's own rev-list.",
+   note=TB + "`git rev-list` semantics are git's (used as a spec in the upload-set comparison); the premise 'listed objects are on the server after exit 0' rests on C06/C15 and the queue's error reporting. D23 and D24 are known findings.",
+   technique="Lean 4 proof (set-level refinement with explicit premises + decided counterexamples) + scenario correspondence on real repositories",
+   ref="§5 C03, Appendix M"),
 }
 PENDING_REASON = "check not built yet in this session (build in progress, see DESIGN.md §10); not claimed until its theorems and correspondence run"
 ALL = ["C%02d" % i for i in range(1, 21)]
